@@ -40,7 +40,7 @@ def r1_identifier_swap(chk: Check):
     sv = [n for n in g.live if n.kind == "stmt" and isinstance(n.ast, ast.Assign) and src(n.ast.targets[0]) == "self._deprecated_identifier"]
     chk.require(len(sv) == 1 and src(sv[0].ast.value) == "self.identifier" and st and g.dominates(sv[0], st[0]), chk.fkey(f, "saves the former identifier"), "the former identifier must be saved before the swap (used to locate old job directories)", loc)
     rs = [n for n in g.live if n.kind == "stmt" and isinstance(n.ast, ast.Raise)]
-    ok = any(any(src(t.ast) == "len(self.basetype.__bases__) != 1" and pol is True for t, pol in g.guards(r) if t.kind == "test") for r in rs)
+    ok = any(any(src(t.ast) == "len(self.basetype.__bases__) == 1" and pol is False for t, pol in g.guards(r) if t.kind == "test") for r in rs)
     chk.require(ok, chk.fkey(f, "single parent"), "a deprecated class with more than one base must be refused", loc)
     # identifier is a plain attribute of Type (no lazily computed property that could bypass the swap)
     for cn in ("Type", "ObjectType"):
@@ -110,9 +110,9 @@ def r3_link_move_table(chk: Check):
     def classify(n):
         t = src(n.ast)
         table = {
-            "job_path.parent.is_symlink()": ("is_link", True), "job is None": ("job_none", True), "new_identifier != old_identifier": ("differs", True),
+            "job_path.parent.is_symlink()": ("is_link", True), "job is None": ("job_none", True), "new_identifier == old_identifier": ("differs", False),
             "fix": ("fix", True), "cleanup": ("cleanup", True), "newjobpath.is_symlink()": ("target_link", True), "newjobpath.exists()": ("target_exists", True),
-            "newjobpath.resolve() != oldjobpath.resolve()": ("other_target", True),
+            "newjobpath.resolve() == oldjobpath.resolve()": ("other_target", False),
         }
         return table.get(t)
 
